@@ -372,7 +372,7 @@ impl Check for C11 {
     fn id(&self) -> &'static str { "C11" }
     fn level(&self) -> &'static str { "fault_enumeration" }
     fn rule(&self) -> String {
-        "exhaustive matrix, each cell with several random server states. Valve: 9 (players, rules) toggle pairs x 4 outcomes per section {valid, silent, malformed, challenge-then-silent} x app-id relation {main, dedicated, other, no expectation (Source(None)), no expectation (GoldSrc)} x check on/off = 1 440 cells; Unreal 2: 9 pairs x 3 outcomes per section = 81 cells. From log + result: Skip => that request kind never sent and the section absent; Try + failure => rest of the response equal to the fault-free one with the section absent; Enforce + failure => Err of that failure's class; Ok iff check off, or no expectation, or id in {main, dedicated}, else BadGame with no players/rules request after it. non-trivial = a cell whose verdict was reached; distinct by (cell, state)".into()
+        "exhaustive matrix, each cell with several random server states. Valve: 9 (players, rules) toggle pairs x 4 outcomes per section {valid, silent, malformed, challenge-then-silent} x app-id relation {main, dedicated, other, no expectation (Source(None)), no expectation (GoldSrc)} x check on/off = 1 440 cells; Unreal 2: 9 pairs x 3 outcomes per section = 81 cells, the malformed outcome stratified over {datagram of another kind, right header with an unparsable body, valid datagrams followed by such a datagram (rules)}. From log + result: Skip => that request kind never sent and the section absent; Try + failure => rest of the response equal to the fault-free one with the section absent; Enforce + failure => Err of that failure's class; Ok iff check off, or no expectation, or id in {main, dedicated}, else BadGame with no players/rules request after it. non-trivial = a cell whose verdict was reached; distinct by (cell, state)".into()
     }
     fn assumptions(&self) -> Vec<String> { vec!["'that failure's kind' is asserted by class: timeout-class (PacketReceive/PacketSend) for silence, a non-timeout kind for a malformed reply".into(), "server models as in C02/C06".into()] }
     fn total_cases(&self, tier: Tier) -> u64 { (VALVE_CELLS + U2_CELLS) * tier.pick(60, 400) }
@@ -390,7 +390,12 @@ impl Check for C11 {
         if m.shapes.len() < need {
             return Err(format!("{} of {need} cells executed", m.shapes.len()));
         }
+        for k in ["unreal2-malformed-variant-wrong-kind", "unreal2-malformed-variant-bad-body", "unreal2-malformed-variant-bad-later-datagram"] {
+            if m.counters.get(k).copied().unwrap_or(0) == 0 {
+                return Err(format!("{k}: never exercised"));
+            }
+        }
         Ok(())
     }
-    fn extra_coverage(&self, _tier: Tier, m: &Stats) -> Value { json!({"cells_executed": m.shapes.len(), "cells_planned": VALVE_CELLS + U2_CELLS}) }
+    fn extra_coverage(&self, _tier: Tier, m: &Stats) -> Value { json!({"cells_executed": m.shapes.len(), "cells_planned": VALVE_CELLS + U2_CELLS, "unreal2_cell_runs_by_malformed_kind": {"wrong_kind": m.counters.get("unreal2-malformed-variant-wrong-kind"), "bad_body": m.counters.get("unreal2-malformed-variant-bad-body"), "bad_later_datagram": m.counters.get("unreal2-malformed-variant-bad-later-datagram")}}) }
 }
